@@ -29,8 +29,7 @@ theorem C18_trans (a b c : E C) (hab : equalX N a b = .tt) (hbc : equalX N b c =
 /- Reflexivity at full strength:
      theorem C18_refl (a : E C) : equalX N a a = .tt
    is FALSE for the code as it exists: see C18_counterexample_refl_nan (a NaN constant),
-   C18_counterexample_not_alldiff, C18_counterexample_symbolic_* (kinds that throw) and
-   C18_counterexample_call_arg_ub.  Proved: reflexivity on trees without NaN constants all of
+   C18_counterexample_symbolic_* and C18_counterexample_call_arg_symbolic_if (kinds that throw).  Proved: reflexivity on trees without NaN constants all of
    whose nodes the comparator handles. -/
 theorem C18_refl_partial (a : E C) (hn : noNaN N a = true) (hs : okC a = true) :
     equalX N a a = .tt :=
@@ -83,7 +82,7 @@ theorem C18_hash_structural (hc : ∀ x y, N.feq x y = true → P.hDbl x = P.hDb
     (a b : E C) (h : Sim N a b) : hashX P a = hashX P b :=
   sim_hash N P hc a b h
 
-/-- The hasher throws exactly on trees that contain IFSYM, NUMBEROF_SYM or NOT_ALLDIFF. -/
+/-- The hasher throws exactly on trees that contain IFSYM or NUMBEROF_SYM. -/
 theorem C18_hash_defined_iff (a : E C) : (hashX P a).isSome = okH a := hash_isSome P a
 
 /-! ## Outcomes other than true/false -/
@@ -91,20 +90,15 @@ theorem C18_hash_defined_iff (a : E C) : (hashX P a).isSome = okH a := hash_isSo
 /- Full strength ("terminates without memory errors on every expression the factory can build",
    and returns a verdict):
      theorem C18_total (a b : E C) : equalX N a b = .tt ∨ equalX N a b = .ff
-   is FALSE: C18_counterexample_not_alldiff / _symbolic_* (throws), _call_arg_ub (null deref). -/
+   is FALSE: C18_counterexample_symbolic_* / _call_arg_symbolic_if (throws). -/
 theorem C18_total_partial (a b : E C) (hs : okC a = true ∨ okC b = true) :
     equalX N a b = .tt ∨ equalX N a b = .ff := by
   cases hs with
   | inl ha => exact R.isBool_iff.mp (total N a b ha)
   | inr hb => rw [equalX_symm]; exact R.isBool_iff.mp (total N b a hb)
 
-/-- No null dereference unless *both* trees contain a call argument that is neither numeric nor a
-string literal. -/
-theorem C18_no_ub_partial (a b : E C) (hs : argsOk a = true ∨ argsOk b = true) :
-    equalX N a b ≠ .ub := by
-  cases hs with
-  | inl ha => exact no_ub N a b ha
-  | inr hb => rw [equalX_symm]; exact no_ub N b a hb
+/-- No null dereference, at full strength (since the fix of `ExprComparator::VisitCall`). -/
+theorem C18_no_ub (a b : E C) : equalX N a b ≠ .ub := no_ub N a b
 
 /-! ## Counterexamples (replayed against the real code by the check) -/
 
@@ -115,12 +109,6 @@ theorem C18_counterexample_refl_nan : equalX ieee (.num qnan) (.num qnan) = .ff 
 
 theorem C18_counterexample_refl_nan_pl :
     equalX ieee (.pl [(1, qnan)] 2 (.ref .var 0)) (.pl [(1, qnan)] 2 (.ref .var 0)) = .ff := by decide
-
-/-- `Equal(e, e)` and `hash(e)` throw UnsupportedError for `!alldiff` -/
-theorem C18_counterexample_not_alldiff (as : List (E C)) :
-    equalX N (.iter .notAllDiff as) (.iter .notAllDiff as) = .unsup ∧
-    hashX P (.iter .notAllDiff as) = none := by
-  simp [equalX, hashX, IterK.unsupported]
 
 theorem C18_counterexample_symbolic_numberof (as : List (E C)) :
     equalX N (.iter .numberOfSym as) (.iter .numberOfSym as) = .unsup ∧
@@ -137,15 +125,9 @@ theorem C18_counterexample_string_toplevel (s : List UInt8) :
     equalX N (.str s) (.str s) = .unsup ∧ (hashX P (.str s)).isSome = true := by
   simp [equalX, hashX]
 
-/-- a call whose argument is a symbolic `if` (the NL reader builds these): `Equal` dereferences the
-null `StringLiteral` obtained from the failed cast -/
-theorem C18_counterexample_call_arg_ub (f : Nat) (c t e : E C) :
-    equalX N (.call f [.ite .ifSym c t e]) (.call f [.ite .ifSym c t e]) = .ub := by
-  simp [equalX, equalArgs, E.kind, Kind.isNumeric, R.and]
-
-/-- ... and so does a logical argument -/
-theorem C18_counterexample_call_arg_logical_ub (f : Nat) (v : Bool) :
-    equalX N (.call f [.bool v]) (.call f [.bool v]) = .ub := by
+/-- a call whose argument is a symbolic `if` (the NL reader builds these): reported as unsupported -/
+theorem C18_counterexample_call_arg_symbolic_if (f : Nat) (c t e : E C) :
+    equalX N (.call f [.ite .ifSym c t e]) (.call f [.ite .ifSym c t e]) = .unsup := by
   simp [equalX, equalArgs, E.kind, Kind.isNumeric, R.and]
 
 /-! ## Non-vacuity -/
@@ -158,7 +140,7 @@ def sample : E UInt64 :=
       (.call 2 [.str [97, 98], .num 0x8000000000000000, .iter .count [.bool true, .un .not (.bool false)]]),
     .iter .numberOf [.num 0, .ref .var 1]]
 
-example : okC sample = true ∧ noNaN ieee sample = true ∧ argsOk sample = true := by decide
+example : okC sample = true ∧ noNaN ieee sample = true := by decide
 example : equalX ieee sample sample = .tt := C18_refl_partial ieee sample (by decide) (by decide)
 /-- `-0.0 == 0.0`: equal trees with different bit patterns -/
 example : equalX ieee (.num 0x8000000000000000) (.num 0) = .tt := by decide
@@ -167,5 +149,9 @@ example : equalX ieee (.bin .add (.ref .var 0) (.ref .var 1)) (.bin .add (.ref .
 example : equalX ieee (.iter .min [.ref .var 0]) (.iter .min [.ref .var 0, .ref .var 0]) = .ff := by decide
 example : equalX ieee (.call 0 [.str [97]]) (.call 0 [.str [98]]) = .ff := by decide
 example : equalX ieee (.call 0 [.str [97, 0, 98]]) (.call 0 [.str [97, 0, 99]]) = .tt := by decide
+/-- `!alldiff` and logical call arguments are compared like everything else -/
+example : equalX ieee (.iter .notAllDiff [.ref .var 0, .ref .var 1]) (.iter .notAllDiff [.ref .var 0, .ref .var 1]) = .tt := by decide
+example : equalX ieee (.call 1 [.bool true]) (.call 1 [.bool true]) = .tt ∧
+    equalX ieee (.call 1 [.bool true]) (.call 1 [.bool false]) = .ff := by decide
 
 end MpVerif.C18
